@@ -121,7 +121,8 @@ pub(crate) fn extend_node_properties_from_store(
 
     for (key_name, blob_id) in to_fetch {
         let storage_val = decode_property_blob(pager, blob_id)?;
-        props.insert(key_name, storage_val);
+        // the scan yields the entries of one key newest first: keep the first, as the single-key read does
+        props.entry(key_name).or_insert(storage_val);
     }
 
     Some(())
@@ -174,7 +175,8 @@ pub(crate) fn extend_edge_properties_from_store(
 
     for (key_name, blob_id) in to_fetch {
         let storage_val = decode_property_blob(pager, blob_id)?;
-        props.insert(key_name, storage_val);
+        // the scan yields the entries of one key newest first: keep the first, as the single-key read does
+        props.entry(key_name).or_insert(storage_val);
     }
 
     Some(())
